@@ -44,6 +44,10 @@ class C12(Prop):
         rc, out, p, dt = C.go_test_overlay(ctx.work, "./agent/websockets/", "TestVerifC12Shapes$", OVERLAY, "shapes.jsonl", ctx.seed, ctx.tier, timeout=600)
         obs["shapes"] = C.read_jsonl(p)
         obs["shapes_tail"] = out[-3000:]
+        rc, out, p, dt = C.go_test_overlay(ctx.work, "./agent/websockets/", "TestVerifC12Batch$", OVERLAY, "batch.jsonl", ctx.seed, ctx.tier, timeout=600)
+        obs["batch"] = C.read_jsonl(p)
+        if rc != 0 or not obs["batch"]:
+            raise RuntimeError("C12 batch harness did not run: rc=%s\n%s" % (rc, out[-2000:]))
         rc, out, p, dt = C.go_test_overlay(ctx.work, "./agent/websockets/", "TestVerifC12Deaf$", OVERLAY, "deaf.jsonl", ctx.seed, ctx.tier, timeout=600)
         obs["deaf"] = C.read_jsonl(p)
         if rc != 0 or not obs["deaf"]:
@@ -63,6 +67,19 @@ class C12(Prop):
         res = []
         for sig, txt in obs["races"]:
             res.append((sig, "the race detector reported a data race in the shim handlers", {"report": txt}))
+        for r in obs.get("batch") or []:
+            rp = {"driver": "TestVerifC12Batch: sessions A, B open and C closed; one data post naming several sessions", "observed": r}
+            if r.get("error"):
+                res.append(("batch:open-failed", r["error"], rp))
+                continue
+            if r["status"] != r["expected_status"]:
+                res.append(("batch:call-naming-unknown-session-accepted" if r["expected_status"] == 400 else "batch:unexpected-status", "data post %s answered %s, expected %s" % (r["post"], r["status"], r["expected_status"]), rp))
+            for side in ("a", "b"):
+                got, allowed = r.get(side + "_received") or [], r.get(side + "_allowed") or []
+                if [m for m in got if m not in allowed]:
+                    res.append(("batch:message-delivered-to-another-session", "session %s received %s; only %s were addressed to it" % (side.upper(), got, allowed), rp))
+                elif r["status"] == 200 and got != allowed:
+                    res.append(("batch:message-lost", "the post was answered 200 but session %s received %s instead of %s" % (side.upper(), got, allowed), rp))
         for r in obs.get("deaf") or []:
             rp = {"driver": "TestVerifC12Deaf: open, then close, against a backend that is %s; the backend reports whether the agent's end of its socket went away within 3 s" % r["backend"], "observed": r}
             if r.get("open_status") != 200:
